@@ -1,13 +1,14 @@
 package main
 
 import (
+	"fmt"
 	"go/ast"
 	"go/token"
 	"strings"
 )
 
 func init() {
-	allFacts = append(allFacts, factEz)
+	allFacts = append(allFacts, factEz, factEzFileChain)
 }
 
 // F19: the script of ez.ConfigFileEnvFlagDecoderFactoryParams
@@ -246,4 +247,55 @@ func factEz() {
 	emit("/-- F19e: library operations of the `!filepathSet` branch -/\ndef ezNoFileOps : List EzTok := %s\n\n", ctor(noFileOps))
 	emit("/-- F19f: operations of the main path whose failure is returned at once (`return nil, err`) -/\ndef ezChecked : List EzTok := %s\n\n", ctor(checked))
 	emit("/-- F19f: operations of the `!filepathSet` branch whose failure is returned at once -/\ndef ezNoFileChecked : List EzTok := %s\n\n", ctor(noFileChecked))
+}
+
+// factEzFileChain (F12ez): the manglers ez wraps around the file decoder, in the order of the
+// `manglers = append(manglers, …)` statements of ConfigFileEnvFlagDecoderFactoryParams ("?" marks an optional one,
+// appended inside an `if`).  The alias mangler has to come first: the reformatting mangler that follows it rewrites
+// the `dials` tag of BOTH copies of an aliased field, so the alias is looked up in the file's naming convention too.
+func factEzFileChain() {
+	f := parse("ez/ez.go")
+	var chain []string
+	if fd := funcDecl(f, "ConfigFileEnvFlagDecoderFactoryParams"); fd != nil {
+		var walk func(list []ast.Stmt, optional bool)
+		walk = func(list []ast.Stmt, optional bool) {
+			for _, st := range list {
+				switch x := st.(type) {
+				case *ast.AssignStmt:
+					if len(x.Lhs) == 1 && src(x.Lhs[0]) == "manglers" && len(x.Rhs) == 1 && strings.HasPrefix(src(x.Rhs[0]), "append(") {
+						r := src(x.Rhs[0])
+						name := "other"
+						switch {
+						case strings.Contains(r, "NewAliasMangler"):
+							name = "alias"
+						case strings.Contains(r, "NewTagReformattingMangler"):
+							name = "reformat"
+						case strings.Contains(r, "SetSliceMangler"):
+							name = "setslice"
+						case strings.Contains(r, "AnonymousFlattenMangler"):
+							name = "anonflatten"
+						}
+						if optional {
+							name += "?"
+						}
+						chain = append(chain, name)
+					}
+				case *ast.IfStmt:
+					walk(x.Body.List, true)
+				case *ast.BlockStmt:
+					walk(x.List, optional)
+				}
+			}
+		}
+		walk(fd.Body.List, false)
+	}
+	if len(chain) == 0 {
+		miss("F12ez", "ez/ez.go ConfigFileEnvFlagDecoderFactoryParams: `manglers = append(manglers, …)` statements")
+		chain = []string{"alias", "reformat?", "setslice?"}
+	}
+	q := make([]string, len(chain))
+	for i, c := range chain {
+		q[i] = fmt.Sprintf("%q", c)
+	}
+	emit("/-- F12ez: the manglers ez wraps around the file decoder, in order (`?` = appended under an option) -/\ndef ezFileChain : List String := [%s]\n\n", strings.Join(q, ", "))
 }
